@@ -373,7 +373,7 @@ class ObtainSimpleGraph(ObtainGraphAction):
             setattr(args, self.dest, G)
         except ValueError as e:
             parser.error(str(e))
-        except FileNotFoundError as e:
+        except OSError as e:
             parser.error(str(e))
 
 
@@ -390,7 +390,7 @@ class ObtainBipartiteGraph(ObtainGraphAction):
             setattr(args, self.dest, B)
         except ValueError as e:
             parser.error(str(e))
-        except FileNotFoundError as e:
+        except OSError as e:
             parser.error(str(e))
 
 
@@ -407,5 +407,5 @@ class ObtainDirectedAcyclicGraph(ObtainGraphAction):
             setattr(args, self.dest, D)
         except ValueError as e:
             parser.error(str(e))
-        except FileNotFoundError as e:
+        except OSError as e:
             parser.error(str(e))
